@@ -1,6 +1,8 @@
 // Package refused: functions OUTSIDE the subset of the translator; gen/trans_test.go checks that each is refused.
 package refused
 
+import "errors"
+
 type Box struct {
 	data []int
 	n    int
@@ -111,3 +113,32 @@ func NilFunc(a, b int) int {
 
 // writing a part of a slice through an in-out position
 func both3(s []int) { both(s[1:], s[:1]) }
+
+// ---- [ext:T20] --------------------------------------------------------------------------------------------
+
+var hidden int
+
+// ranging over a string decodes runes
+func RangeString(s string) int {
+	n := 0
+	for range s {
+		n++
+	}
+	return n
+}
+
+func StrCat(a, b string) int { return len(a + b) }
+
+func RuneConv(s string) int { return len([]rune(s)) }
+
+func RuneString(r rune) string { return string(r) }
+
+// a package-level variable that is not listed in TransSpec.Globals
+func GlobalUnlisted() int { return hidden }
+
+var ErrMutable = errors.New("x")
+
+func setErr() { ErrMutable = nil }
+
+// a sentinel error that some function assigns is not a constant
+func MutableSentinel() error { return ErrMutable }
